@@ -34,6 +34,8 @@ BOUNDS = {
     'thorough': 'quick + depth 2 after the 3-code alphabet with 2 forms, faults with all option settings',
 }
 
+IDENT_LISTS = [['x', 'None'], ['True', 'y'], ['x', 'a.b'], ['x', 'if'], ['x', ''], ['x', '(y)'], ['False'], ['x', '1'], ['x', 'y z'],
+               ['__debug__', 'x', 'None', 'y']]
 BAD_CODE = ['a +', ')', 'if', 'x = 1', 'pass\n  y', '1 2', '', '*', 'é é', 'lambda', 'a, *', '(', 'yield = 1']
 
 
@@ -98,6 +100,10 @@ def enumerate_faults(src, tree=None, lite=False):
             if not lite:
                 yield {'op': 'fault', 'fault': 'arglike-order', 'path': p, 'field': vf, 'text': '**kw', 'idx': 0}
                 yield {'op': 'fault', 'fault': 'arglike-order', 'path': p, 'field': 'keywords', 'text': '*s', 'idx': 'end'}
+        if ncls in ('Global', 'Nonlocal'):  # code given as a Python list of strings (identifiers for names, else source lines)
+            for names in (IDENT_LISTS[:3] if lite else IDENT_LISTS):
+                for i in (0, 'end'):
+                    yield {'op': 'fault', 'fault': 'identifier-list', 'path': p, 'text': '|'.join(names), 'idx': i}
         if ncls == 'arguments':  # parameter code that parses but may break an ordering rule; extraction with an impossible conversion
             for text in ('p, /', '*v', '**k', 'q') if not lite else ('p, /', '**k'):
                 for i in (0, 'end'):
@@ -176,6 +182,11 @@ def apply(fst, root, op):
         return None
     if k == 'arglike-order':
         return n.put_slice(op['text'], op['idx'], op['idx'], op['field'], norm=True)
+    if k == 'identifier-list':
+        names = op['text'].split('|')
+        if op['idx'] == 'end':
+            return n.put_slice(names, 'end', None, 'names', norm=True)
+        return n.put_slice(names, 0, 1, 'names', norm=True)
     if k == 'arguments-order':
         return n.put_slice(op['text'], op['idx'], op['idx'], '_all', norm=True)
     if k == 'arguments-cut-as':
